@@ -19,7 +19,7 @@ ActFor(act) ==
     [] OTHER -> FALSE
 TraceInit == Init /\ l = 1
 Reset == /\ st' = [x \in Nodes |-> 0] /\ comp' = [x \in Nodes |-> {x}] /\ know' = [x \in Nodes |-> Blank]
-         /\ part' = {} /\ ops' = 0 /\ last' = [a |-> "init"] /\ M' = [bad |-> {}, wrong |-> {}, tags |-> {}] /\ passive' = {}
+         /\ part' = {} /\ ops' = 0 /\ last' = [a |-> "init"] /\ M' = [bad |-> {}, wrong |-> {}, tags |-> {}] /\ passive' = {} /\ unheard' = {}
 Step ==
   /\ l <= Len(Trace)
   /\ l' = l + 1
@@ -27,7 +27,7 @@ Step ==
      ELSE IF Line.act.a = "quiet"
             THEN /\ M' = MonQuiet(M, Line.obs.views)
                  /\ last' = Line.act
-                 /\ UNCHANGED <<st, comp, know, part, ops, passive>>
+                 /\ UNCHANGED <<st, comp, know, part, ops, passive, unheard>>
      ELSE \/ ActFor(Line.act) /\ ops' = ops + 1 /\ UNCHANGED M
           \/ /\ ~ENABLED (ActFor(Line.act) /\ ops' = ops + 1 /\ UNCHANGED M)
              /\ PrintT(<<"DIVERGE", l>>)
